@@ -261,9 +261,9 @@ theorem specTrace_plain (na : Bool) (gs : List Chg) (hc : ∀ g ∈ gs, g.Clean)
       | false => simp [ih']
       | true => simp [ih', List.filter_append, filter_rearmLines]
 
-theorem specTrace_append_ok (pre post : List Chg) (h : specOk pre = true) :
-    specTrace (pre ++ post) =
-      (pre.flatMap fun g => g.cmd :: (if g.need then rearmLines na else [])) ++ specTrace post := by
+theorem specTrace_append_ok (na : Bool) (pre post : List Chg) (h : specOk pre = true) :
+    specTrace na (pre ++ post) =
+      (pre.flatMap fun g => g.cmd :: (if g.need then rearmLines na else [])) ++ specTrace na post := by
   induction pre with
   | nil => rfl
   | cons g pre ih =>
